@@ -1,3 +1,3 @@
--- Model driver for property C20 (stub until the property's model exists).
-import GojaModel.Base.Proto
-def main : IO Unit := GojaModel.Proto.lineMap (fun _ => "unimplemented")
+-- Model driver for property C20.
+import GojaModel.C20.Driver
+def main : IO Unit := GojaModel.C20.Driver.main
